@@ -131,7 +131,7 @@ func runC10(w *World, r *Report, tier string) {
 	// what is pushed: the serialized data
 	for _, k := range []string{"xmpp.(*Client).Send", "xmpp.(*Client).SendRaw"} {
 		fn := w.Func(k)
-		for _, c := range w.callsIn(fn, "stanza.UnAckQueue.Push") {
+		for _, c := range w.callsInH(fn, "stanza.UnAckQueue.Push") {
 			arg := c.Common().Args[1]
 			if mi, ok := arg.(*ssa.MakeInterface); ok {
 				arg = mi.X
@@ -191,7 +191,7 @@ func runC10(w *World, r *Report, tier string) {
 
 	// ---- R3
 	route := w.Func("xmpp.(*Router).route")
-	sms := w.callsIn(route, "xmpp.SendMissingStz")
+	sms := w.callsInH(route, "xmpp.SendMissingStz")
 	if len(sms) != 1 {
 		r.Undecided("R3", "xmpp.(*Router).route→SendMissingStz", w.pos(route.Pos()), fmt.Sprintf("expected one call, found %d", len(sms)))
 	} else {
@@ -242,7 +242,7 @@ func runC10(w *World, r *Report, tier string) {
 		r.Fail("R6", fmt.Sprintf("xmpp.SendMissingStz#pairing#%d", i+1), w.pos(smz.Pos()), is+" — the next acknowledgement answer blocks forever in Lock()")
 	}
 	lastSent := smz.Params[0]
-	pops := w.callsIn(smz, "stanza.UnAckQueue.Pop", "stanza.UnAckQueue.PopN")
+	pops := w.callsInH(smz, "stanza.UnAckQueue.Pop", "stanza.UnAckQueue.PopN")
 	nPop := 0
 	var discardPops []ssa.Instruction
 	for _, p := range pops {
@@ -396,7 +396,26 @@ func runC10(w *World, r *Report, tier string) {
 		}
 		n8++
 		cons := fmt.Sprintf("%s#store:UnAckQueue#%d", w.funcKey(a.Fn), n8)
-		okV := w.funcKey(a.Fn) == "xmpp.(*Session).EnableStreamManagement" && w.isResultOf(a.Val, 0, "stanza.NewUnAckQueue")
+		okV := w.ownerKey(a.Fn) == "xmpp.(*Session).EnableStreamManagement" && w.isResultOf(origin(a.Val), 0, "stanza.NewUnAckQueue")
+		r.Check(okV, "R8", cons, w.ipos(a.Instr), "the queue of held stanzas is replaced outside EnableStreamManagement or by something other than a fresh queue", "fresh NewUnAckQueue() in EnableStreamManagement")
+	}
+	// the queue can also be put in place as part of a whole new SM state
+	fSessSM := w.Field("xmpp.Session.SMState")
+	for _, a := range w.fieldAccesses(fSessSM, w.LibFuncs()) {
+		if a.Kind != "store" {
+			continue
+		}
+		fields, al := complitFields(a.Val)
+		if al == nil {
+			continue
+		}
+		qv, has := fields["UnAckQueue"]
+		if !has {
+			continue
+		}
+		n8++
+		cons := fmt.Sprintf("%s#store:UnAckQueue#%d", w.ownerKey(a.Fn), n8)
+		okV := w.ownerKey(a.Fn) == "xmpp.(*Session).EnableStreamManagement" && w.isResultOf(origin(qv), 0, "stanza.NewUnAckQueue")
 		r.Check(okV, "R8", cons, w.ipos(a.Instr), "the queue of held stanzas is replaced outside EnableStreamManagement or by something other than a fresh queue", "fresh NewUnAckQueue() in EnableStreamManagement")
 	}
 	r.Floor("R8", 1)
